@@ -35,6 +35,9 @@ FLAVOURS = {
     "O2n": ("g++", ["-O2"]),
     "O3": ("g++", ["-O3", "-DBSPLINE_ADD_TEST_CHECKS"]),
     "O3n": ("g++", ["-O3"]),
+    # functional monitors under the other compiler (argument evaluation order,
+    # different inlining and floating-point code generation)
+    "clang": ("clang++", ["-O2", "-g1", "-DBSPLINE_ADD_TEST_CHECKS"]),
     "asan": ("g++", ["-O1"] + SAN + ["-D_GLIBCXX_ASSERTIONS"]),
     "asanchk": ("g++", ["-O1"] + SAN + ["-D_GLIBCXX_ASSERTIONS",
                                         "-DBSPLINE_ADD_TEST_CHECKS"]),
